@@ -50,7 +50,7 @@ type Floor struct {
 
 // Call the function with the arguments provided.
 func (f *Floor) Call(s *slip.Scope, args slip.List, depth int) slip.Object {
-	return floor(s, f, args, depth)
+	return reduceValues(floor(s, f, args, depth))
 }
 
 func floor(s *slip.Scope, f slip.Object, args slip.List, depth int) slip.Values {
